@@ -149,3 +149,37 @@ fn typed_labels_accepted_iff_legal_played_exactly_rejected_without_effect() {
         }
     }
 }
+
+/// C15 on SUPPLIED positions where the book's suggestion for the history is a move its piece could physically make
+/// but that is not legal (the mover is in check / the piece is pinned): the engine must still answer with a legal
+/// move of the position (added after seed r14_C15: a book reply matched without the king-safety filter)
+#[test]
+fn engine_move_is_legal_when_the_book_reply_is_only_pseudo_legal() {
+    // White is in check from h4 (f2 is gone): of the book's first moves none is legal
+    let mut checked = Board::starting_position();
+    checked.remove(F2); checked.remove(D8); checked.put(H4, Piece::Queen, Color::Black).unwrap();
+    // the d2 pawn is pinned by a bishop on a5: the book's d2d4 is not legal, neither at once nor as the reply to 1.e4 c6
+    let mut pinned = Board::starting_position();
+    pinned.remove(F8); pinned.put(A5, Piece::Bishop, Color::Black).unwrap();
+    let mut illegal_suggestions = 0;
+    for (name, b0, history) in [("White in check", checked.clone(), vec![]), ("pinned d-pawn", pinned.clone(), vec![]), ("pinned d-pawn after 1.e4 c6", pinned.clone(), vec![(E2, E4), (C7, C6)])] {
+        for attempt in 0..12 {
+            let mut game = Game::from_board(b0.clone(), 2);
+            for (f, t) in history.iter() {
+                game.apply_chess_move_by_from_to_coordinates(*f, *t).unwrap_or_else(|e| panic!("{}: history move rejected: {:?}", name, e));
+                game.board_mut().toggle_turn();
+            }
+            let turn = game.board().turn();
+            let legal = MoveGenerator::new().generate_moves(&mut game.board().clone(), turn);
+            assert!(!legal.is_empty());
+            if !legal.iter().any(|l| l.to_uci() == "d2d4") { illegal_suggestions += 1; }
+            let before = snapshot(game.board());
+            match game.select_waterfall_book_then_alpha_beta_best_move() {
+                Ok(m) => assert!(legal.iter().any(|l| l.to_uci() == m.to_uci()), "{} attempt {}: the engine chose {} which is not a legal move of the supplied position", name, attempt, m),
+                Err(e) => panic!("{} attempt {}: {} legal moves but the engine answered Err({})", name, attempt, legal.len(), e),
+            }
+            assert!(snapshot(game.board()) == before, "{} attempt {}: selecting a move changed the board", name, attempt);
+        }
+    }
+    assert!(illegal_suggestions >= 36, "the positions do not make d2d4 illegal (vacuous)");
+}
